@@ -14,7 +14,7 @@ pub const RULE: &str = "metamorphic: the full observation sequence (items, offse
 Exhaustive part: small documents (valid, truncated at every position class, one corrupted byte; length <= 12 quick / <= 15 thorough) × EVERY composition of the length into read sizes (2^(len-1)) × capacities {0,1,2,7,8,15,16,17,len-1,len,len+1,default}. \
 Random part: the reader mix (valid/mutated/random/adversarial/mid-document) × random compositions (1-byte reads, 1-3, 1-17, large) × capacities 0..=64, len±1, default × tolerance subsets × buffered subsets; \
 pause part: end-of-stream closing disabled, the source answers Ok(0) once at a chosen subset of tag boundaries and the driver keeps calling next() after None while data remains: result equals the un-paused run, \
-and the run without closing is the run with closing minus trailing Ends. Each (input, schedule, capacity) is one evaluation. Non-trivial: some read boundary falls strictly inside an element (header or payload) or capacity < input length; distinct by (input, schedule, capacity).";
+and the run without closing is the run with closing minus trailing Ends. A fourth stage repeats the pause part on documents in which one payload has 64 KiB - 200 KB (the buffer has outgrown its default length when the pauses come). Each (input, schedule, capacity) is one evaluation. Non-trivial: some read boundary falls strictly inside an element (header or payload) or capacity < input length; distinct by (input, schedule, capacity).";
 
 pub const ASSUMPTIONS: &[&str] = &[
     "the slice parse itself is anchored to ground truth by C03/C06/C12, so 'everything is equally wrong' cannot hide here",
@@ -250,6 +250,23 @@ fn stage_random(i: &Input, c: &mut Case) -> Result<(), String> {
 fn stage_pause(i: &Input, c: &mut Case) -> Result<(), String> {
     let mut t = Tape::new(i.tape());
     let m = gen_mixed(&mut t, MixOpts { weights: [4, 4, 4, 0, 1, 2], ..MixOpts::default() });
+    pauses(t, m, c)
+}
+
+/// the same relation on documents in which one payload has 64 KiB .. 200 KB (the buffer then outgrows its default length before the pauses)
+fn stage_pause_big(i: &Input, c: &mut Case) -> Result<(), String> {
+    let mut t = Tape::new(i.tape());
+    let mut m = gen_mixed(&mut t, MixOpts { weights: [4, 4, 0, 0, 0, 0], ..MixOpts::default() });
+    let n = *t.pick(&[65_536usize, 65_537, 70_000, 131_072, 200_000]);
+    if crate::gen::enlarge_one_leaf(&mut t, &mut m.forest, n) {
+        crate::gen::fix_widths(&mut m.forest);
+        m.bytes = crate::refmodel::ref_encode(&m.forest).0;
+        c.label("payload_of_64KiB_or_more_before_the_pauses");
+    }
+    pauses(t, m, c)
+}
+
+fn pauses(mut t: Tape, m: MixedInput, c: &mut Case) -> Result<(), String> {
     let len = m.bytes.len();
     let tolerate = if t.chance(2, 3) { 0 } else { t.below(8) as u8 };
     let capacity = match t.weighted(&[3, 3, 2]) {
@@ -301,7 +318,7 @@ fn stage_pause(i: &Input, c: &mut Case) -> Result<(), String> {
                 // deliver up to the boundary in random pieces, then pause
                 let mut left = bd - pos;
                 while left > 0 {
-                    let n = (1 + t.below(9)).min(left);
+                    let n = (if left > 4096 { 1 + t.below(20_000) } else { 1 + t.below(9) }).min(left);
                     steps.push(RStep::Chunk(n));
                     left -= n;
                 }
@@ -368,6 +385,7 @@ pub const STAGES: &[Stage] = &[
     Stage { name: "all_compositions", f: stage_exhaustive },
     Stage { name: "random_schedules", f: stage_random },
     Stage { name: "eof_pauses", f: stage_pause },
+    Stage { name: "eof_pauses_after_big_payload", f: stage_pause_big },
 ];
 
 pub fn run(rc: &mut RunCtx) {
@@ -376,6 +394,7 @@ pub fn run(rc: &mut RunCtx) {
     rc.run_indexed(STAGES[0], docs, false, &|k| Input::Args(vec![seed, k, max_len]));
     rc.run_pt(STAGES[1], rc.pick(640_000, 3_000_000), (96, 600));
     rc.run_pt(STAGES[2], rc.pick(320_000, 1_500_000), (96, 600));
+    rc.run_pt(STAGES[3], rc.pick(3_000, 20_000), (96, 600));
     rc.require_label("random_schedules", "capacity_below_16", 50_000);
     rc.require_label("eof_pauses", "has_pause", 300_000);
     rc.require_label("eof_pauses", "none_then_more_items", 50_000);
